@@ -21,7 +21,8 @@ RULE = ("member names built from components %r joined with '/' and '\\\\', relat
         "paths of sandbox decoys), every name to depth 3 (quick) / 5 (thorough; separators sampled), as "
         "single-member archives and in random multi-member archives with directory entries; destination given "
         "plain, with trailing separator, relative, and containing '..'; also through nuwiki.Adapt(ZipFile) and "
-        "wiki.make_wiki() on nuwiki and multi-nuwiki archives; "
+        "wiki.make_wiki() on nuwiki and multi-nuwiki archives; optionally after an earlier extraction into a "
+        "sibling directory in the same process; "
         "non-trivial = name contains '..', is absolute, or names a decoy; distinct = distinct (member list, dst form)"
         % (COMPONENTS,))
 ASSUMPTIONS = [
